@@ -5,7 +5,7 @@ CONSTANTS
   Direct = TRUE
   Keep <- KeepAll
   NLoads = 1
-  Abandon = TRUE
+  Abandon = FALSE
   Toggle = FALSE
   RemoveDeletesEntry = TRUE
   VersionGuard = TRUE
